@@ -15,6 +15,7 @@
 #include <unistd.h>
 
 #include <foonathan/memory/debugging.hpp>
+#include <foonathan/memory/error.hpp>
 #include <foonathan/memory/temporary_allocator.hpp>
 
 using namespace sim;
@@ -170,6 +171,12 @@ namespace ss
                     m.fail("shared_stack", std::string(via) + ": task " + std::to_string(t)
                                                + " was handed the temporary stack that live task "
                                                + std::to_string(kv.first) + " is using");
+            // a thread keeps its stack until it gives it back (initializer destroyed / thread exit), whatever
+            // size a later initializer or get_temporary_stack() asks for
+            if (m.holds.count(t) && m.holds[t] != p)
+                m.fail("stack_replaced", std::string(via) + ": task " + std::to_string(t)
+                                             + " already had a temporary stack and was handed a different one "
+                                               "(the first one stays marked as in use and is never reused)");
             stats().hit(m.seen.count(p) ? (m.freed.count(p) ? "reach.stack_of_finished_user_adopted" :
                                                               "reach.stack_handed_again") :
                                           "reach.stack_created");
@@ -228,6 +235,10 @@ namespace ss
             if (m.sched_id.count(t))
                 m.clearing.erase(m.sched_id[t]);
         }
+
+        struct UserOom : std::bad_alloc
+        {
+        };
 
         struct Scope
         {
@@ -361,7 +372,12 @@ namespace ss
                             m.begin_acquire();
                             try
                             {
-                                init.reset(new fm::temporary_stack_initializer(64 + std::size_t(o.arg(0))));
+                                // (sometimes far more than the default stack size)
+                                auto want = o.arg(1) == 6 ? 20000 + 100 * std::size_t(o.arg(0)) :
+                                                            64 + std::size_t(o.arg(0));
+                                if (o.arg(1) == 6)
+                                    stats().hit("reach.initializer_asks_for_more_than_default");
+                                init.reset(new fm::temporary_stack_initializer(want));
                             }
                             catch (...)
                             {
@@ -433,6 +449,9 @@ namespace ss
                     ++g_leak_calls;
                     g_leak_amount = amount;
                 });
+            if (plan.num("user_oom", 0))
+                // a user's out_of_memory handler that reports the failure with its own exception type
+                fm::out_of_memory::set_handler([](const fm::allocator_info&, std::size_t) { throw UserOom(); });
             static Model model;
             g_model = &model;
             model.shadow.reset();
